@@ -316,8 +316,15 @@ loop:
 		// Determine the next poll interval.
 		switch {
 		case len(rdBuf) > 0:
-			// Received data, enqueue the read.
-			c.workerRdChan <- rdBuf
+			// Received data, enqueue the read.  If the application has
+			// stopped calling Read() the queue may be full; Close() must
+			// still be able to tear the worker down (and with it callers
+			// blocked in Write()), so give up on the data in that case.
+			select {
+			case c.workerRdChan <- rdBuf:
+			case <-c.workerCloseChan:
+				break loop
+			}
 
 			// And poll immediately.
 			interval = 0
